@@ -40,6 +40,12 @@ Definition reload_when_v0 (interval : Z) (last now now2 : Z) : Z * Z :=
   let next := last + interval in
   if next <? now then (0, now) else (next - now2, last).
 
+(* func (r *ingressReconciler[T]) Forget(_ T) {}  and  func (r *reloadHAProxy) Forget(_ any) {}:
+   client-go calls Forget after every successful callback (and controller-runtime before a
+   RequeueAfter); both are no-ops: `last` is left alone, whatever the clock says *)
+Definition reconciler_forget (last now : Z) : Z := last.
+Definition reload_forget (last now : Z) : Z := last.
+
 (* A limiter is any function of this shape. *)
 Definition whenfn := Z -> Z -> Z * Z.
 
